@@ -7,9 +7,12 @@ package main
 import (
 	"context"
 	"fmt"
+	"reflect"
 	"strings"
+	"time"
 
 	"github.com/hprose/hprose-golang/v3/rpc/core"
+	"github.com/hprose/hprose-golang/v3/rpc/plugins/reverse"
 	"github.com/hprose/hprose-golang/v3/rpc/socket"
 	"github.com/hprose/hprose-golang/v3/rpc/udp"
 	"verif/mcgo/h"
@@ -264,6 +267,101 @@ func main() {
 		socketClient(2, false, 2, 3), socketClient(2, true, 2, 3), socketClient(3, true, 1, 2),
 		udpClient(2, false, 2, 3), udpClient(2, true, 2, 3), udpClient(3, true, 1, 2),
 		socketServer(2, false, 2, 3), socketServer(3, false, 1, 2), socketServer(2, true, 2, 3),
+		reverseScenario(2, 0, 2, 3), reverseScenario(2, time.Second, 2, 3),
 	}
 	h.Main(ID, scen, nil)
+}
+
+// ---- reverse calls: service -> provider, matched by index (rpc/plugins/reverse) ----
+
+func reverseScenario(callers int, idle time.Duration, quick, thorough int) h.Scenario {
+	name := fmt.Sprintf("reverse-caller/callers=%d/idle-timeout=%v", callers, idle)
+	return h.Scenario{Name: name, Quick: quick, Thorough: thorough, AllowHang: true, Run: func(ch vs.Chooser, trace bool) (*vs.Sched, h.Outcome) {
+		got := make([]string, callers)
+		errs := make([]error, callers)
+		done := make([]bool, callers)
+		var delivered []string
+		cfg := vs.Config{Trace: trace}
+		if idle > 0 {
+			cfg.EagerHorizon = idle // the provider's idle time-out may strike at any scheduling point
+		}
+		s := vs.Run(ch, cfg, func() {
+			service := core.NewService()
+			caller := reverse.NewCaller(service)
+			caller.Timeout = 0 // a reverse call without time-out: only the provider's answer ends it
+			caller.HeartBeat = 0
+			caller.IdleTimeout = idle
+			pctx := func() context.Context {
+				sc := core.NewServiceContext(service)
+				sc.RequestHeaders().Set("id", "prov")
+				return core.WithContext(context.Background(), sc)
+			}
+			begin, end := service.Get("!").Func(), service.Get("=").Func()
+			rvSlice := end.Type().In(1)
+			var callersDone vs.WaitGroup
+			for i := 0; i < callers; i++ {
+				i := i
+				callersDone.Add(1)
+				vs.GoFG(fmt.Sprintf("caller%d", i), func() {
+					defer callersDone.Done()
+					r, err := caller.Invoke("prov", "echo", []interface{}{fmt.Sprintf("arg-of-caller-%d", i)}, reflect.TypeOf(""))
+					errs[i] = err
+					if len(r) > 0 {
+						got[i] = fmt.Sprint(r[0])
+					}
+					done[i] = true
+				})
+			}
+			vs.Go(func() { // the provider: poll, answer (in an order the explorer picks), poll again
+				answered := 0
+				for poll := 0; poll < 2*callers+2 && answered < callers; poll++ {
+					out := begin.Call([]reflect.Value{reflect.ValueOf(pctx())})[0]
+					n := out.Len()
+					if n == 0 {
+						continue
+					}
+					results := reflect.MakeSlice(rvSlice, 0, n)
+					for _, k := range order(n) {
+						c := out.Index(k)
+						idx := c.Index(0).Elem().Interface().(int)
+						args := c.Index(2).Elem().Interface().([]interface{})
+						delivered = append(delivered, fmt.Sprint(args[0]))
+						rv := reflect.New(rvSlice.Elem()).Elem()
+						rv.Index(0).Set(reflect.ValueOf(idx))
+						rv.Index(1).Set(reflect.ValueOf("re:" + fmt.Sprint(args[0])))
+						rv.Index(2).Set(reflect.ValueOf(""))
+						results = reflect.Append(results, rv)
+					}
+					end.Call([]reflect.Value{reflect.ValueOf(pctx()), results})
+					answered += n
+				}
+			})
+			callersDone.Wait()
+		})
+		var o h.Outcome
+		o.Key = strings.Join(got, ",")
+		if s.Pruned || s.Aborted != "" {
+			return s, o
+		}
+		for i := range got {
+			want := fmt.Sprintf("re:arg-of-caller-%d", i)
+			switch {
+			case !done[i]:
+				o.Key += " HANG"
+				o.Viol = append(o.Viol, h.V{Sig: "reverse|call-never-returns", What: fmt.Sprintf("%s: reverse call %d never returns although the provider keeps polling (calls handed to the provider: %v; blocked: %s)", name, i, delivered, strings.Join(append(s.Hangs, s.Leaked...), "; "))})
+			case errs[i] != nil:
+				o.Viol = append(o.Viol, h.V{Sig: "reverse|call-got-error", What: fmt.Sprintf("%s: reverse call %d: %v", name, i, errs[i])})
+			case got[i] != want:
+				o.Viol = append(o.Viol, h.V{Sig: "reverse|call-got-another-calls-result", What: fmt.Sprintf("%s: reverse call %d received %q, its own result is %q", name, i, got[i], want)})
+			}
+		}
+		seen := map[string]int{}
+		for _, d := range delivered {
+			seen[d]++
+			if seen[d] > 1 {
+				o.Viol = append(o.Viol, h.V{Sig: "reverse|call-delivered-twice", What: fmt.Sprintf("%s: %q handed to the provider %d times", name, d, seen[d])})
+			}
+		}
+		return s, o
+	}}
 }
